@@ -296,6 +296,12 @@ def crash_stage(c):
 
 
 def run(c):
+  # translator: regenerate the transaction shape of every SQLDataStore method from the current source; the
+  # kernel decides that every path is one transaction (Props/C05Txn.lean)
+  from translators import sql_txn
+  table, helper, unknown = sql_txn.write(core.REPO, core.LEAN_DIR)
+  c.add_obligation('translator: every database call of sql_datastore.py recognised', not unknown, '; '.join(unknown[:8]))
+  c.coverage_extra['sql_transaction_shape'] = {k: [' '.join(p) for p in v] for k, v in table.items()}
   c.proof_stage()
   crash_stage(c)
   svc.cleanup()
